@@ -122,7 +122,7 @@ func c02BundleCase(root string, g *ggraph, cfg c02Cfg, extra func(o *api.BuildOp
 }
 
 func runC02(c *Check) {
-	c.Rule = "all module graphs of <=3 modules over 10 shapes (single, pair, chain, star, diamond, join, 2- and 3-cycles, self-import, cycle with tail) x module kinds {.mjs, .cjs} x 12 edge kinds (named/default/namespace/side-effect imports, re-export, export *, export * as, top-level-await import(), require, inline require, lazy require, dynamic import from CJS) x CJS export styles x throwing variants; every graph is loaded natively by Node (import()/require()) and as esbuild bundles (esm/cjs/iife+global name x node/browser/neutral x minify) loaded the way their format dictates; compared: global evaluation log, values seen through every import incl. live bindings, thrown error class, export surface; plus asset loaders (json/text/base64/binary/dataurl) over byte-class words; distinct = distinct (log, surface) observations"
+	c.Rule = "all module graphs of <=3 modules over 10 shapes (single, pair, chain, star, diamond, join, 2- and 3-cycles, self-import, cycle with tail) x module kinds {.mjs, .cjs} x 12 edge kinds (named/default/namespace/side-effect imports, re-export, export *, export * as, top-level-await import(), require, inline require, lazy require, dynamic import from CJS) x CJS export styles x throwing variants; every graph is loaded natively by Node (import()/require()) and as esbuild bundles (esm/cjs/iife+global name x node/browser/neutral x minify) loaded the way their format dictates; compared: global evaluation log, values seen through every import incl. live bindings, thrown error class, export surface; plus asset loaders (json/text/base64/binary/dataurl) over byte-class words; distinct = distinct (log, surface) observations; import() observations of ESM importers record which object became default"
 	c.Assump = []string{"Node 20's native ESM/CJS loaders are the reference", "documented limitations are excluded by construction: at most one top-level-await module and never on a cycle, CJS modules require only CJS modules, CJS exports are not mutated after evaluation, namespace key lists are only observed for ES module targets, no observation of bindings on cycles before all bodies ran, error messages are not compared"}
 	pool := NewNodePool("")
 	defer pool.Close()
